@@ -6,6 +6,7 @@
 From Coq Require Import String Sorting.Sorted.
 From AV Require Import Lib.Base H1.Encoder H1.RespSpec H1.RespSeq H1.EncoderProofs H1.RespSeqProofs.
 From AV Require Import H1.RespAbortProofs H1.Flush H1.FlushProofs H1.RespWire H1.RespWireProofs.
+From AV Require Import Gen.H1EncoderTables H1.EncoderGenProofs.
 Open Scope N_scope.
 
 (* ------------------------------------------------------------------ body-faithful, self-framed *)
@@ -281,6 +282,62 @@ Example C02_stream_request_example :
                (snd (codec_encode_chunks (item_codec c r BStream) [[97; 98]])) true =
   RComplete FClose [97; 98] 2.
 Proof. vm_compute. repeat split. Qed.
+
+(* ------------------------------------------------------------------ translator tie *)
+(* Gen/H1EncoderTables.v is regenerated from actix-http/src/h1/{encoder.rs,codec.rs,dispatcher.rs}
+   and helpers.rs on every check run (tools/gen/h1_encoder.py): the status rules as written in the
+   source, the version comparisons of the F18 rule and of the connection arms, and the literal byte
+   strings.  The model decides and emits exactly these (status rules on all codes 0..999): a
+   changed literal or rule in the source breaks these obligations, a pattern that no longer
+   matches removes the definition they need. *)
+Theorem C02_model_matches_source_tables :
+  (forall s, s < 1000 -> status_no_body s = H1ENC_NO_BODY_STATUS s) /\
+  (forall s, s < 1000 ->
+     negb (has_field "content-length" (encode_headers (r_of s) V11 (BSized 5) CKeepAlive)) =
+     (H1ENC_HDR_SKIP_STATUS s || (s =? H1ENC_HDR_RETAIN_STATUS))) /\
+  (forall v, lt_11 v = H1ENC_CLOSE_DELIMITED_VER (vnum v) /\ lt_11 v = H1ENC_HTTP10_RESPONSE_VER (vnum v)) /\
+  CRLF ++ first_line (encode_headers (r_of 200) V11 BStream CKeepAlive) = H1ENC_TE_CHUNKED /\
+  first_line (encode_headers (r_of 200) V11 BNone CClose) = H1ENC_CONN_CLOSE /\
+  snd (te_encode (TChunked false) []) = H1ENC_LAST_CHUNK /\
+  render_head cont_head = H1DISP_CONTINUE.
+Proof. exact model_matches_source_tables. Qed.
+
+Theorem C02_model_emits_source_literals :
+  (* header lines; the camel-case variants of the source are the same lines up to ASCII case *)
+  (CRLF ++ first_line (encode_headers (r_of 200) V11 (BSized 0) CKeepAlive) = H1ENC_CL_ZERO /\
+   CRLF ++ first_line (encode_headers (r_of 200) V11 (BSized 1234567890) CKeepAlive) =
+     H1ENC_CL_PREFIX ++ dec 1234567890 ++ H1ENC_CL_SUFFIX /\
+   first_line (encode_headers (r_of 200) V11 BNone CUpgrade) = H1ENC_CONN_UPGRADE /\
+   first_line (encode_headers (r_of 200) V10 BNone CKeepAlive) = H1ENC_CONN_KEEPALIVE /\
+   H1ENC_NO_LEN = CRLF /\ H1ENC_NO_TE_HTTP10 = CRLF /\ H1ENC_NO_TE_NOCHUNK = CRLF /\ H1ENC_HEAD_END = CRLF /\
+   map lower_byte H1ENC_TE_CHUNKED_CAMEL = H1ENC_TE_CHUNKED /\
+   map lower_byte H1ENC_CL_ZERO_CAMEL = H1ENC_CL_ZERO /\
+   map lower_byte H1ENC_CL_PREFIX_CAMEL = H1ENC_CL_PREFIX /\
+   map lower_byte H1ENC_CONN_UPGRADE_CAMEL = H1ENC_CONN_UPGRADE /\
+   map lower_byte H1ENC_CONN_KEEPALIVE_CAMEL = H1ENC_CONN_KEEPALIVE /\
+   map lower_byte H1ENC_CONN_CLOSE_CAMEL = H1ENC_CONN_CLOSE) /\
+  (* status line prefixes *)
+  (firstn 9 (status_line V11 200) = H1ENC_STATUS_LINE_11 /\ firstn 9 (status_line V10 200) = H1ENC_STATUS_LINE_10) /\
+  (* chunk syntax: terminator from encode and from encode_eof, "{:X}\r" + newline, data, CRLF *)
+  (te_encode_eof (TChunked false) = Some (TChunked true, H1ENC_LAST_CHUNK) /\
+   snd (te_encode (TChunked false) (repeat 97 255)) =
+     hex_ff ++ H1ENC_CHUNK_SIZE_FMT_SUFFIX ++ [10] ++ repeat 97 255 ++ H1ENC_CHUNK_END) /\
+  (* connection arms: keep-alive line iff version < 1.1, close line iff version >= 1.1 *)
+  (forall v, has_field "connection" (encode_headers (r_of 200) v BNone CKeepAlive) = H1ENC_CONN_KEEPALIVE_VER (vnum v) /\
+             has_field "connection" (encode_headers (r_of 200) v BNone CClose) = H1ENC_CONN_CLOSE_VER (vnum v)) /\
+  (* 304 arm: a user content-length is retained exactly for the generated status *)
+  (forall s, s < 1000 ->
+     has_field "content-length" (encode_headers (mkResp s None false [(str "content-length", str "7")]) V11 BNone CKeepAlive) =
+     (s =? H1ENC_HDR_RETAIN_STATUS)) /\
+  (* Codec::encode STREAM rule (F18b) *)
+  rs_nochunk (stream_adjust (mkCodec true false true V11 CKeepAlive te_empty) (r_of 200) BStream) = H1CODEC_STREAM_NOCHUNK.
+Proof.
+  split; [pose proof header_literals_match; tauto|]. split; [pose proof status_line_literals_match; tauto|].
+  split; [pose proof chunk_literals_match; tauto|].
+  split; [intro v; pose proof (version_rules_match v); tauto|].
+  split; [intros s Hs; apply Bool.eqb_prop; exact (forallb_statuses _ hdr_retain_status_matches s Hs)|].
+  apply stream_rule_matches.
+Qed.
 
 (* ------------------------------------------------------------------ non-vacuity *)
 (* two pipelined requests, the second decoded while the first handler is pending; a streaming
